@@ -533,6 +533,10 @@ def eval (env : Env) (root : Msg) : Expr → (part : Nat) → Msg → St → Tri
 
 /-! ## after evaluation: interpolation of the whole list -/
 
+/-- The copy loop of `match_interpolate` over one existing (decoded) `X-Label` value: `'\n'` and `'\r'`
+become a space (/repo 71eba6c), every other byte is copied. -/
+def labelSafe (v : Bytes) : Bytes := v.map fun c => if c == 10 || c == 13 then 32 else c
+
 /-- `match_interpolate(mh, macros)` for the entry at position `i`; the message (and its
 parts, for entries created inside attachment blocks) is updated by label / add-header. -/
 def matchInterpolate (macros : Option (List (Bytes × Bytes))) (ml : MatchList) (i : Nat) (mh : Match)
@@ -548,7 +552,7 @@ def matchInterpolate (macros : Option (List (Bytes × Bytes))) (ml : MatchList) 
     let existing : Bytes :=
       match getHeader m (ofString "X-Label") with
       | none => []
-      | some ls => (ls.intersperse [32]).flatten
+      | some ls => ((ls.map labelSafe).intersperse [32]).flatten
     let rec add (ss : List Bytes) (buf : Bytes) : Option Bytes :=
       match ss with
       | [] => some buf
